@@ -379,7 +379,9 @@ def mutation_rules(chk, hs):
                     hname = U(p_.end[1].func)
                     site_ = f"{sw['mi'].rel}:{sw['fn'].lineno}"
                     n += 1
-                    if not sw["copies"]:
+                    if not sw["copies"] and sw.get("other_copies"):
+                        chk.unknown("C05.R18", site_, f"{hname}: a `copy_` at line {sw['other_copies'][0]} is not in a loop over the recorded destinations that the rule recognises: whether every destination is written is not decided")
+                    elif not sw["copies"]:
                         chk.bad("C05.R18", site_, hname, "write-back fallback never writes back", f"NOT: {hname} re-issues the op on dequantized stand-ins but no `<destination>.copy_(...)` is found in a loop over the recorded destinations (list: {sw['pairs']})",
                                 "q.relu_() / q.zero_() / q.masked_fill_(m, 0): the operand comes back unchanged, no error")
                     elif any(g for _, g in sw["copies"]):
